@@ -54,6 +54,10 @@ def gen(rng, index, tier):
     if config[0] == "pickaperm" and rng.random() < 0.4:
         # names containing the delimiters of the textual form (str(ranking) is then ambiguous), repeated rankings
         raw, meta = lib.gen_dataset(rng, nmax=5, mmax=5, family=rng.choice(["complete", "dup"]), kind="str_delim", nmin=3)
+    if rng.random() < 0.1:
+        # penalties that are not exactly representable in binary (0.3, 0.7, 1/3): float sums drift; the predicate of this
+        # check (structure of the result, no failure) does not depend on scores
+        sch = lib.gen_scheme(rng, family="decimal")
     amo = rng.random() < 0.5
     if config[0] in ("exact", "cplex") and config[1] == 1:
         amo = True  # optimize=True with all rankings requested is a documented IncompatibleArgumentsException
